@@ -490,6 +490,29 @@ def g6(ctx):
                 ops_ = atomic_ops(p)
                 if ops_ and ss[-1].data['val'] == ops_[-1]['ev'].val:
                     okshape = True
+            if not okshape and nm == 'wait_timeout' and core is not None and core[0] == 'bin' and core[1] == 'Lt' and is_state_read(core[2]) \
+                    and is_const(core[3], LOCKED):
+                import waitc
+                if waitc.contract(ctx.facts) is not None:
+                    ops_ = atomic_ops(p)
+                    if ops_ and core[2] == ops_[-1]['ev'].val:
+                        okshape = True
+                        core = ('const', 'bool', '0')   # nothing more to check on this exit: it reports what the last read says
+            if not okshape and nm == 'wait_timeout' and core is not None and (
+                    (core[0] == 'const' and core[1] == 'bool' and core[2] == '1') or
+                    (core[0] == 'agg' and not core[3] and core[1] in ctx.facts.adts_by_canon() and 'Option' not in core[1])):
+                # another contract of the timed wait (`true` = any final state; a private three-valued enum): the meaning of each
+                # result is READ from the paths (rules/waitc.py) and the callers are held to it; here: the path must carry the
+                # evidence for its class, and "delivered" must rest on the last read of the state
+                import waitc
+                cl = waitc.classify(evs)
+                if cl is not None and waitc.contract(ctx.facts) is not None:
+                    okshape = True
+                    if cl == frozenset('D'):
+                        su = [e for e in evs if e.name == 'BR' and e.data['label'] == 'sig_unlocked']
+                        ops_ = atomic_ops(p)
+                        if not (su and ops_ and contains(su[-1].data['val'], ops_[-1]['ev'].val)):
+                            ctx.violate(b.key, p, '%s decides success on a stale read of the state' % nm)
             if not okshape:
                 ctx.violate(b.key, p, '%s result is not `state == UNLOCKED` on a value read from the state: %s' % (nm, fmt(core)))
                 continue
